@@ -47,6 +47,9 @@ def run_mutant(mu, tier, extra_props=()):
             res['checks'][prop] = {'exit': r.returncode, 'signatures': sigs[:3], 'wall': round(time.time() - t0, 1)}
         exp = [res['checks'][p]['exit'] for p in mu['props']]
         res['status'] = 'caught' if any(e == 1 for e in exp) else 'MISSED'
+        if res['status'] == 'MISSED' and mu.get('equivalent'):
+            res['status'] = 'equivalent'
+            res['note'] = 'equivalent mutant: ' + mu['equivalent']
         res['caught_by'] = [p for p in res['checks'] if res['checks'][p]['exit'] == 1]
     finally:
         shutil.rmtree(scratch, ignore_errors=True)
